@@ -83,7 +83,7 @@ def cases(tier, seed):
                 continue
             seen.add(key)
             n_new += 1
-            out.append((k, len(key), len(out), dict(t=tr, s=int(seed))))
+            out.append((k, len(key), len(out), dict(t=tr, s=int(seed), g=label)))
         sizes[label] = n_new
     out.sort(key=lambda x: x[:3])
     cases.sizes = sizes
